@@ -1033,6 +1033,30 @@ func c05Coercions(c *Ctx) {
 			"strconv.ParseFloat(*v.Str, 64)#0": {"v.Tag == ValueStr", "strconv.ParseFloat(*v.Str, 64)#1 == nil"}},
 		Source: "booleans 0/1, numeric strings by value, anything else 0",
 	})
+	// a string is 0 only where ParseFloat refused it: every text ParseFloat accepts ("Inf", "NaN",
+	// ".5", "1e3") counts by value — no shortcut decides "not a number" from the look of the text
+	if af := p.LangFunc("(*Value).asFloat64"); af != nil {
+		n := 0
+		for _, ret := range returnsOf(af) {
+			res := effectiveResults(ret)
+			if k, isK := constFloat(res[0]); !isK || k != 0 {
+				continue
+			}
+			g := guardsAt(p, af, ret.Block())
+			if !g["v.Tag == ValueStr"] {
+				continue
+			}
+			n++
+			refused := false
+			for k := range g {
+				if strings.HasPrefix(k, "strconv.ParseFloat(") && strings.HasSuffix(k, "#1 != nil") {
+					refused = true
+				}
+			}
+			c.check(refused, "R8", fmt.Sprintf("asFloat64 string-zero #%d", n), p.InstrPos(ret), "a string counts as 0 where ParseFloat returned an error", "a string counts as 0 on a path where ParseFloat was not asked (or did not refuse): a text that ParseFloat accepts — `Inf`, `Infinity`, `NaN` — is coerced to 0 instead of its value")
+		}
+		c.check(n >= 1, "R8", "asFloat64 string-zero", p.Pos(af.Pos()), "the non-numeric string arm exists", "no `0` result under v.Tag == ValueStr found in asFloat64")
+	}
 	c.checkArm("R8", "String", p.LangFunc("(*Value).String"), armSpec{
 		Results: []string{"*v.Str", "strconv.FormatFloat(*v.Num, 102, -1, 64)", `""`},
 		Effects: []string{},
